@@ -199,3 +199,33 @@ Fixpoint merge_runs (rs : list (sstyle * list N)) : list (sstyle * list N) :=
       | [] => [(s, t)]
       end
   end.
+
+(* ---- vocabulary of the function translator (tools/gen_fn_wincon.py): per-field setters and
+   small adapters naming the anstyle operations the Rust code calls.  Definitions only; nothing
+   above depends on them. *)
+Definition set_c_style (c : capture) (s : sstyle) : capture := mkCap s (c_printable c) (c_ready c).
+Definition set_c_printable (c : capture) (t : list N) : capture := mkCap (c_style c) t (c_ready c).
+Definition set_c_ready (c : capture) (r : option sstyle) : capture := mkCap (c_style c) (c_printable c) r.
+
+Definition wstate_eqb (a b : wstate) : bool :=
+  match a, b with
+  | WNormal, WNormal | WPrepareCustomColor, WPrepareCustomColor | WAnsi256, WAnsi256
+  | WRgb, WRgb | WUnderline, WUnderline => true
+  | _, _ => false
+  end.
+
+(* anstyle::Effects is a bit set (an N); Style::effects(e), Style | Effects *)
+Definition set_eff (s : sstyle) (e : N) : sstyle := mkStyle (s_fg s) (s_bg s) (s_ul s) e.
+Definition st_or_eff (s : sstyle) (e : N) : sstyle := mkStyle (s_fg s) (s_bg s) (s_ul s) (N.lor (s_eff s) e).
+
+(* anstyle::AnsiColor as an enumeration (crates/anstyle/src/color.rs); the hand model above
+   works with its palette index *)
+Inductive acolor : Set :=
+  | ABlack | ARed | AGreen | AYellow | ABlue | AMagenta | ACyan | AWhite
+  | ABrightBlack | ABrightRed | ABrightGreen | ABrightYellow | ABrightBlue | ABrightMagenta | ABrightCyan | ABrightWhite.
+Definition ansi_idx (a : acolor) : N :=
+  match a with
+  | ABlack => 0 | ARed => 1 | AGreen => 2 | AYellow => 3 | ABlue => 4 | AMagenta => 5 | ACyan => 6 | AWhite => 7
+  | ABrightBlack => 8 | ABrightRed => 9 | ABrightGreen => 10 | ABrightYellow => 11 | ABrightBlue => 12
+  | ABrightMagenta => 13 | ABrightCyan => 14 | ABrightWhite => 15
+  end.
